@@ -12,13 +12,15 @@ CHECKS = {
     text="Bounded exhaustive enumeration on the real implementation: every element of the branch-structured element alphabet "
          "(unary laws), every ordered pair (composition, *=), every triple of the reduced alphabet (associativity) and every "
          "(element, point) pair (action), for 12 group types x {double,float}, each judged against the documented matrix form "
-         "evaluated in long double.",
+         "evaluated in long double; Bundles incl. Galilei / SE_K_3 members; value-semantics and argument-storage spaces (expression, segment, "
+         "strided, transposed arguments give the same result).",
     design="4/C01", technique="explicit-state enumeration of a finite input product space against a reference model"),
  "C02": dict(
     text="Bounded exhaustive enumeration on the real implementation: every tangent of the branch-structured alphabet (rotation norm "
          "0..50, both sides of every Taylor/closed-form switch incl. +-1 ulp, the neighbourhood of pi, translation magnitudes 0..1e3) and "
          "every element of the element alphabet, for 12 group types x {double,float}; exp is compared with the scaling-and-squaring matrix "
-         "exponential of the documented hat matrix in long double, log by exponentiating it with the reference, at the stated tolerances.",
+         "exponential of the documented hat matrix in long double, log by exponentiating it with the reference, at the stated tolerances; the round trip of tangents with |a|<1 is also judged relative to |a|; alternate-order second pass, "
+         "value-semantics and argument-storage spaces.",
     design="4/C02", technique="explicit-state enumeration of a finite input space against a reference model"),
  "C03": dict(
     text="Bounded exhaustive enumeration: all alphabet tangents (hat, vee, ad, Ad(exp a)), all alphabet elements (Ad), all pairs of the "
@@ -34,11 +36,12 @@ CHECKS = {
     text="Bounded exhaustive enumeration (double precision, as the statement's bound): every alphabet tangent with rotation norm <= pi-1e-3 "
          "for SO2, SO3, SE2, SE3, C1 and three Bundle compositions, d2r/d2l_exp(inv), d2r_rminus, d2r_rminus_squarednorm against "
          "complex-step derivatives of phi1(-/+ad) in the documented stacked layout (no finite-difference cancellation), at the stated 1e-5; "
-         "d_matrix_product and d2_fog on every size configuration up to the bound x static/dynamic x dense/sparse on integer data compared exactly, "
+         "d_matrix_product (column-major, row-major, views into larger matrices, dynamic size) and d2_fog on every size configuration up to the "
+         "bound x static/dynamic x dense/sparse on integer data compared exactly, "
          "with compile probes for the dynamic-size configurations.",
     design="4/C05", technique="explicit-state enumeration of finite input / configuration spaces against a reference model"),
  "C06": dict(
-    text="Bounded exhaustive enumeration over a GENERATED FAMILY of 155 Bundle types (every ordered tuple of length 1-2 over {SO2,SO3,SE2,C1,"
+    text="Bounded exhaustive enumeration over a GENERATED FAMILY of 161 Bundle types (six with Galilei / SE_K_3<2> members, judged without Hessians) (every ordered tuple of length 1-2 over {SO2,SO3,SE2,C1,"
          "Vector2,SE3} in double and float, every length-3 tuple over {SO3,SE2,Vector2}, nested Bundle<Bundle<A,B>,C> for all pairs) x the full "
          "product of per-part alphabets: every LieGroupBase operation, Jacobian and Hessian of the Bundle equals the same operation on "
          "part<i>() (segments, diagonal blocks, exact zeros elsewhere, Hessian block placement; <= 2 ulp), compile-time constants judged at "
@@ -63,7 +66,8 @@ CHECKS = {
          "fresh strategy state, plus an explicit-state BFS over trust-region strategy states reachable by prefix solves (history depth 2, states "
          "merged on the exact bytes of the strategy members): callback trace starts at the start point and has non-increasing recomputed "
          "cost, arguments hold the last iterate, iter <= max_iter, status == MaxIters exactly when the bound stopped it (decided by re-running "
-         "with max_iter+1), Ftol/Ptol results within 1e-3 of closed-form minimisers (long-double normal equations, Procrustes).",
+         "with max_iter+1), Ftol/Ptol results within 1e-3 of closed-form minimisers (long-double normal equations, Procrustes); every judged solve is repeated "
+         "through the overloads without a callback and must be the same solve bit for bit; residual-scaled linear instances.",
     design="4/C09", technique="explicit-state enumeration of problem/option products and BFS over solver-state histories against closed-form references"),
  "C10": dict(
     text="Bounded exhaustive enumeration of the full product of J families (8 structured families incl. rank-deficient, graded, nearly "
@@ -80,8 +84,8 @@ CHECKS = {
     design="4/C11", technique="explicit-state enumeration of finite input product spaces against a reference model"),
  "C12": dict(
     text="Explicit-state breadth-first search over the real Spline<K,G> (13 (K,G) configurations, K in {1,2,3,5}): operations concat_local / "
-         "concat_global with every atom of a 4-atom menu and crop(ta,tb,localize) with ta,tb from a state-dependent menu (below range, 0, every "
-         "knot, knot +- 1e-9, every midpoint, t_max, above range), depth 2 full + 3 reduced menu (quick) / 3 + 4 (thorough), <= 8 segments, states "
+         "concat_global with every atom of a 4-atom menu (also with a cropped operand) and crop(ta,tb,localize) with ta,tb from a state-dependent menu (below range, 0, every "
+         "knot, knot +- 1e-9, every midpoint, t_max, above range), depth 3 (quick) / 4-5 (thorough), <= 8 segments, states "
          "merged by the exact bytes of the six private members. Reference model: list of pieces (atom, long-double prefix, start, duration) "
          "updated by the documented semantics of each operation; every state is evaluated at out-of-range times, knots +- {0,1e-9} and segment "
          "thirds for value / velocity / acceleration, t_max, size(), start(), end(), arclength (exact integration of |quadratic| in long "
@@ -95,26 +99,27 @@ CHECKS = {
     design="4/C13", technique="explicit-state enumeration of finite configuration/input products against a reference model"),
  "C14": dict(
     text="Bounded exhaustive enumeration: fit_spline_1d (8 specs x N x 30 interval patterns x data patterns) against the independently rebuilt "
-         "constraint system, fit_spline on 4 groups (interpolation from both sides, velocity continuity, rest), dubins_curve<K> K in {1,2,3,5} on "
+         "constraint system, fit_spline on 4 groups x 4 boundary-value variants per spec (interpolation from both sides, velocity continuity, rest at an end that asks for it), dubins_curve<K> K in {1,2,3,5} on "
          "a polar x heading target grid incl. tangent-circle degeneracies (end pose, unit speed, curvature, length = min over six words of a "
          "__float128 reference), fit_bspline span, reparameterize_spline monotone / onto / start speed.",
     design="4/C14", technique="explicit-state enumeration of finite input product spaces against definitional reference models"),
  "C15": dict(
-    text="Explicit-state breadth-first search over ALL programs up to depth 4 (quick; 5 thorough for SO2/SO3/SE3) over a ~30-operation "
+    text="Explicit-state breadth-first search over ALL programs up to depth 3-4 (quick; 5-6 thorough) over a ~30-operation "
          "alphabet (compose, inverse, *=, +=, rplus, exp, same-scalar cast, lift/project) on a register file of two elements and two tangents "
          "of the real objects, 3 initial files incl. half-turn / q_w~0 / near-identity elements and switch / near-pi tangents, states merged "
          "by the exact bit pattern of the registers; plus every homogeneous chain and every period-2 program unrolled to 1e4 (1e5) steps with "
          "the invariants monitored at every step; plus every fixed-step Runge-Kutta stepper of Boost.odeint x step counts x horizons x "
          "velocities. Invariants: finite, |constraint| <= (n+1)e-14, q_w >= 0, matrix within (n+1)e-13 of the same program run on long-double "
-         "reference matrices.",
+         "reference matrices. Every normalising constructor over a ladder of input norms 1 +- 2^-k down to one ulp.",
     design="4/C15", technique="explicit-state BFS over operation histories with bit-exact state merging, against a reference model"),
  "C16": dict(
-    text="Explicit-state breadth-first search over sequences (depth 4 quick / 5 thorough) of ~25-35 mutating calls made through Map views "
+    text="Explicit-state breadth-first search over sequences (depth 4 quick / 7 thorough, 7e8 states) of ~25-35 mutating calls made through Map views "
          "(whole-object assign / *= / += / setIdentity / coeffs()=, aliasing variants, every sub-part accessor) over a guarded caller buffer "
          "at vector-aligned and scalar-aligned placement, 11 types; after every call the region equals the same call on a value object "
          "(<= 4 ulp) and every scalar outside the call's documented write range is bitwise unchanged; in every reached state all const "
          "operations agree between value / Map / const Map, const views do not write, cross-storage copies are verbatim, cast<S>() is "
-         "coefficient-wise; const Map non-mutability is a compile-time requirement.",
+         "coefficient-wise; plain sub-part assignments have a library-independent expectation; sources that are temporary / moved-from views "
+         "are not written; the type-level clauses (const views offer no mutator) are judged at run time, read-only uses are compile probes.",
     design="4/C16", technique="explicit-state BFS over operation histories on the real buffer with a shadow value model"),
  "C17": dict(
     text="Bounded exhaustive enumeration of full products over element / tangent / planar-angle alphabets (incl. signed-zero coefficient "
@@ -125,15 +130,15 @@ CHECKS = {
  "C18": dict(
     text="Stateless model checking of the real code: harness bodies (group/tangent functions, manifold models incl. SubManifold and "
          "AnyManifold, Spline/BSpline evaluation, sparse derivatives, independent diff/minimize/fit calls) are compiled with TSan code "
-         "generation and linked against our own runtime, so every memory access is a hook; 2-3 controlled threads under a serialising "
-         "scheduler; DFS over all schedules within a preemption bound (2 quick / 3 thorough) with scheduling points at every access to a "
+         "generation and linked against our own runtime, so every memory access is a hook; 2-4 controlled threads under a serialising "
+         "scheduler; DFS over all schedules within a preemption bound (2 threads bound 2 quick; 2 threads bound 4, 3 threads bound 3, 4 threads bound 2 thorough) with scheduling points at every access to a "
          "conflict-candidate granule and at every static-initialisation guard operation, warm and first-use variants, one forked child per "
          "execution; oracles: results bitwise equal to the sequential run, no conflict pair unordered by happens-before, no deadlock. When no "
          "thread writes memory another thread touches the result holds for every interleaving. A separate free-running real-TSan pass "
          "(8 threads) keeps accesses in uninstrumented library code visible.",
     design="5", technique="preemption-bounded schedule enumeration (CHESS-style DFS) over hooked memory accesses", engine="mc-sched"),
  "C19": dict(
-    text="Bounded exhaustive enumeration: 8 group types x every alphabet tangent x block offsets {0,1,Dof,7} x host sizes x host "
+    text="Bounded exhaustive enumeration: 11 group types (Galilei, SE_K_3<2> and a Bundle with a Galilei member for the first-order routines) x every alphabet tangent x block offsets {0,1,Dof,7} x host sizes x host "
          "prefill patterns x 5 sparse routines; the designated block equals the dense routine exactly, every other stored entry is bitwise "
          "untouched, index arrays / nonZeros / compression unchanged (built with AddressSanitizer); published patterns contain every "
          "entry that is non-zero at generic tangents of a long-double reference.",
